@@ -171,7 +171,12 @@ pub fn replay(args: &[String]) {
                 let op = binop(c["e"]["op"].as_str().unwrap());
                 let g2 = catch(|| eval_binary_op(&op, &lv, &rv)).unwrap_or(None);
                 if !values_same(&g2, &want) {
-                    rep.violation(&["C08"], "comparison disagrees with the mathematical order (pattern-expression context: eval_binary_op)", &small, json!(show(&want)), json!(show(&g2)));
+                    let mixed = matches!((&lv, &rv), (Value::Int(_), Value::Float(_)) | (Value::Float(_), Value::Int(_)));
+                    if mixed && g2.is_none() && matches!(op, BinOp::Le | BinOp::Ge) {
+                        rep.known(&["C08"], "C08-pattern-expr-mixed-le-ge", "eval_binary_op has no Int/Float arms for <= and >=");
+                    } else {
+                        rep.violation(&["C08"], "comparison disagrees with the mathematical order (pattern-expression context: eval_binary_op)", &small, json!(show(&want)), json!(show(&g2)));
+                    }
                 }
             }
         }
@@ -269,6 +274,106 @@ pub fn replay(args: &[String]) {
                         },
                     }
                 }
+            }
+        }
+    }
+    rep.write(&args[1]);
+}
+
+// ---------------------------------------------------------------------------------------------
+// C08 at the edges: spec/expr/CmpEdge.tla (symbolic constants with exact ranks)
+// ---------------------------------------------------------------------------------------------
+fn edge_value(name: &str) -> Value {
+    match name {
+        "NINF" => Value::Float(f64::NEG_INFINITY),
+        "NEGTINY" => Value::Float(-1e-17),
+        "ZERO_I" => Value::Int(0),
+        "ZERO_F" => Value::Float(0.0),
+        "TINY" => Value::Float(1e-17),
+        "TINY2" => Value::Float(2e-17),
+        "P3" => Value::Float(0.3),
+        "P3B" => Value::Float(0.1 + 0.2),
+        "ONE_I" => Value::Int(1),
+        "ONE_F" => Value::Float(1.0),
+        "BIG_I" => Value::Int(1 << 53),
+        "BIG_F" => Value::Float((1u64 << 53) as f64),
+        "BIG1_I" => Value::Int((1 << 53) + 1),
+        "MAX_I" => Value::Int(i64::MAX),
+        "INF" => Value::Float(f64::INFINITY),
+        n => panic!("edge constant {n}"),
+    }
+}
+
+fn edge_literal(v: &Value) -> Option<String> {
+    match v {
+        Value::Int(n) if *n >= 0 => Some(format!("{n}")),
+        Value::Float(f) if f.is_finite() && *f >= 0.0 => Some(if *f == 0.0 { "0.0".into() } else if *f < 1e-3 { format!("{:.20}", f) } else { format!("{:?}", f) }),
+        _ => None,
+    }
+}
+
+/// args: cases.ndjson report.json
+pub fn cmp_edge(args: &[String]) {
+    let cases = read_cases(&args[0]);
+    let mut rep = Report::new();
+    let fns = FxHashMap::default();
+    let binds: FxHashMap<String, Value> = FxHashMap::default();
+    let cx = Ctx { rt: tokio::runtime::Builder::new_current_thread().enable_all().build().unwrap() };
+    for c in &cases {
+        let (an, bn) = (c["a"].as_str().unwrap(), c["b"].as_str().unwrap());
+        let (av, bv) = (edge_value(an), edge_value(bn));
+        let opn = c["op"].as_str().unwrap();
+        let op = binop(opn);
+        let sym = match opn { "lt" => "<", "le" => "<=", "gt" => ">", _ => ">=" };
+        let want = c["math"].as_bool().unwrap();
+        let small = json!({"a": an, "op": opn, "b": bn});
+        rep.case(&small, true);
+        // values above 2^53 lose precision when an i64 is converted to f64 for a mixed comparison
+        let big_mixed = c["mixed"].as_bool().unwrap() && [an, bn].iter().any(|n| *n == "BIG1_I" || *n == "MAX_I") && [an, bn].iter().any(|n| *n == "BIG_F" || *n == "INF" || *n == "NINF" || *n == "BIG_I");
+        let precision_case = c["mixed"].as_bool().unwrap() && ((an == "BIG1_I" && bn == "BIG_F") || (an == "BIG_F" && bn == "BIG1_I"));
+        let _ = big_mixed;
+        let mut verdict = |ctx: &str, got: Option<bool>, rep: &mut Report| {
+            if got == Some(want) { return; }
+            if precision_case && got.is_some() {
+                rep.known(&["C08"], "C08-i64-to-f64-precision", "mixed comparison converts the i64 to f64: 2^53+1 compares equal to 2^53 as a float");
+            } else if ctx == "eval_binary_op" && got.is_none() && c["mixed"].as_bool().unwrap() && (opn == "le" || opn == "ge") {
+                rep.known(&["C08"], "C08-pattern-expr-mixed-le-ge", "eval_binary_op has no Int/Float arms for <= and >=");
+            } else {
+                rep.violation(&["C08"], &format!("comparison disagrees with the mathematical order ({ctx})"), &small, json!(want), json!(got));
+            }
+        };
+        // 1. evaluator on fields
+        let ev = Event::new("B").with_field("x", av.clone()).with_field("y", bv.clone());
+        let e = Expr::Binary { op: op.clone(), left: Box::new(Expr::Ident("x".into())), right: Box::new(Expr::Ident("y".into())) };
+        let g = catch(|| eval_expr_with_functions(&e, &ev, SequenceContext::empty(), &fns, &binds)).unwrap_or(None);
+        verdict("evaluator", g.and_then(|v| v.as_bool()), &mut rep);
+        let g2 = catch(|| eval_binary_op(&op, &av, &bv)).unwrap_or(None);
+        verdict("eval_binary_op", g2.and_then(|v| v.as_bool()), &mut rep);
+        // 2. engine: .where on two fields
+        let vpl = format!("stream S = B\n    .where(x {sym} y)\n    .emit(ok: 1)\n");
+        match engine_outputs(&cx, &vpl, vec![ev.clone()]) {
+            Ok(o) => verdict(".where", Some(o.len() == 1), &mut rep),
+            Err(e) => rep.violation(&["C08", "C11"], &format!("engine failed: {e}"), &small, J::Null, J::Null),
+        }
+        // 3. sequence step against a captured event (Predicate::CompareRef -> compare_values)
+        let vpl = format!("stream S = A as a\n    -> B where x {sym} a.x as b\n    .emit(ok: 1)\n");
+        let ea = Event::new("A").with_field("x", bv.clone());
+        let eb = Event::new("B").with_field("x", av.clone());
+        match engine_outputs(&cx, &vpl, vec![ea, eb.clone()]) {
+            Ok(o) => verdict("sequence step vs captured event", Some(o.len() == 1), &mut rep),
+            Err(e) => rep.violation(&["C08", "C11"], &format!("engine failed: {e}"), &small, J::Null, J::Null),
+        }
+        // 4. sequence step / .where against a literal (Predicate::Compare), where the right operand has a source form
+        if let Some(lit) = edge_literal(&bv) {
+            let vpl = format!("stream S = A as a\n    -> B where x {sym} {lit} as b\n    .emit(ok: 1)\n");
+            match engine_outputs(&cx, &vpl, vec![Event::new("A"), eb.clone()]) {
+                Ok(o) => verdict("sequence step vs literal", Some(o.len() == 1), &mut rep),
+                Err(e) => { rep.count("edge_literal_rejected", 1); let _ = e; }
+            }
+            let vpl = format!("stream S = B\n    .where(x {sym} {lit})\n    .emit(ok: 1)\n");
+            match engine_outputs(&cx, &vpl, vec![eb]) {
+                Ok(o) => verdict(".where vs literal", Some(o.len() == 1), &mut rep),
+                Err(_) => rep.count("edge_literal_rejected", 1),
             }
         }
     }
